@@ -44,11 +44,18 @@ def plan (tier, seed):
         for att in (0, 1, 2, 3):
             for var in ((0, 1) if tier == 'thorough' else (0,)):
                 cases.append (dict (fam = 'ring', n = n, att = att, var = var))
+                cases.append (dict (fam = 'ring', n = n, att = att, var = var, pre = 1))
     # two objects joined to each other at both ends: arc + chord ("D"), arc + arc, wire pair
     for kind in ('arc-chord', 'arc-chord-rev', 'arc-arc', 'chord-first'):
         for n in (4, 7):
             for var in ((0, 1) if tier == 'thorough' else (0,)):
                 cases.append (dict (fam = 'dloop', kind = kind, n = n, var = var))
+    # wires brought onto / taken off a junction by a transformation of their own
+    for k in (2, 3):
+        for mask in range (2 ** k):
+            for mode in ('onto', 'off', 'both'):
+                for kind in ('translate', 'rotate'):
+                    cases.append (dict (fam = 'moved', k = k, mask = mask, mode = mode, kind = kind))
     # a wire end that comes close to a junction / to the ground plane without reaching it
     for kind in ('long', 'thick-gnd', 'thick-gnd-junction'):
         for k in (2, 3):
@@ -72,6 +79,8 @@ def make (c):
         return make_dloop (c)
     if c ['fam'] == 'decoy':
         return make_decoy (c)
+    if c ['fam'] == 'moved':
+        return make_moved (c)
     k, mask, perm, gnd, var = c ['k'], c ['mask'], c ['perm'], c ['gnd'], c ['var']
     lam  = 20.0
     segl = lam / (25 if var == 0 else 40)
@@ -120,6 +129,13 @@ def make_ring (c):
     X   = nd [0]
     geo  = [arc]
     ends = [dict (w = 0, e = 0, node = 'J', gnd = False), dict (w = 0, e = 1, node = 'J', gnd = False)]
+    if c.get ('pre'):
+        # an open arc of its own (same plane, concentric, larger radius) listed before the ring: the ring is not
+        # the first object of the model
+        pre  = dict (k = 'a', n = 3 + c ['n'] % 3, radius = rad * 3.0, a1 = 20.0, a2 = 130.0, r = 0.005, tag = None)
+        geo  = [pre, arc]
+        ends = [dict (w = 0, e = 0, node = 'p0', gnd = False), dict (w = 0, e = 1, node = 'p1', gnd = False)
+               , dict (w = 1, e = 0, node = 'J', gnd = False), dict (w = 1, e = 1, node = 'J', gnd = False)]
     if c ['att'] & 1:
         far = X + np.array ([1.0, 0.4, 0.2]) * lam / 10
         geo.append (gen.wire (3, X, far, 0.005))
@@ -172,6 +188,48 @@ def make_decoy (c):
     return dict ( f = 299.8 / lam, geo = geo, media = ([[0, 0, 0]] if gnd else None), src = [], loads = [], ends = ends
                 , tol = tol, style = 'auto')
 # end def make_decoy
+
+def make_moved (c):
+    """ star of k ends; one more wire is written elsewhere and brought onto the junction by a request for its tag
+        alone ('onto'), one wire of the star is written on the junction and taken away ('off'), or both """
+    from pmv.oracles import georef
+    k, mask = c ['k'], c ['mask']
+    lam  = 20.0
+    segl = lam / 30
+    J    = np.array ([0.3, -0.2, 0.1])
+    if c ['kind'] == 'translate':
+        mv  = ['translate', 1.0, [2.5, -1.5, 4.0]]
+        fwd = lambda x: np.asarray (x, float) + np.asarray (mv [2])
+        inv = lambda x: np.asarray (x, float) - np.asarray (mv [2])
+    else:
+        mv  = ['rotate', 1.0, [0.0, 0.0, 90.0]]
+        R   = georef.rot_xyz (mv [2])
+        fwd = lambda x: R @ np.asarray (x, float)
+        inv = lambda x: R.T @ np.asarray (x, float)
+    geo, ends, tr = [], [], []
+    def add (a, b, n, nodes, moved):
+        g = gen.wire (n, a, b, 0.01)
+        g ['tag'] = len (geo) + 1
+        geo.append (g)
+        if moved:
+            tr.append ([mv [0], mv [1], mv [2], g ['tag']])
+        for e in (0, 1):
+            ends.append (dict (w = len (geo) - 1, e = e, node = nodes [e], gnd = False))
+    for j in range (k):
+        n   = 2 + j % 3
+        far = J + DIRS [j] * n * segl * (1 + 0.1 * j)
+        a, b, ej = (far, J, 1) if (mask >> j) & 1 else (J, far, 0)
+        off = (c ['mode'] in ('off', 'both') and j == k - 1)
+        # 'off': written on the junction, its own request takes it away: both ends free afterwards
+        add (a, b, n, {ej: 'o%d' % j if off else 'J', 1 - ej: 'f%d' % j}, off)
+    if c ['mode'] in ('onto', 'both'):
+        far = J + DIRS [4] * 3 * segl
+        a, b, ej = (J, far, 0) if mask & 1 else (far, J, 1)
+        # written where the inverse motion puts it, arrives on the junction
+        add (inv (a), inv (b), 3, {ej: 'J', 1 - ej: 'fm'}, True)
+    return dict ( f = 299.8 / lam, geo = geo, media = None, src = [], loads = [], ends = ends, tr = tr
+                , tol = 1e-3 * segl, style = 'explicit')
+# end def make_moved
 
 def make_dloop (c):
     from pmv.oracles import georef
@@ -338,19 +396,21 @@ def check (c):
         if abs (tot) > (6e-6 * Imax + 1.5e-6 * (Imax >= 0.1)) * len (mem) + 1e-30:
             bad ('kcl', 'kcl-sum', 'junction %s of %d ends: into-junction currents sum to %r (max |I| %.3g)' % (node, len (mem), tot, Imax))
     sizes = sorted (len (v) for v in members.values () if len (v) > 1)
-    if c.get ('fam') == 'decoy':
+    if c.get ('fam') == 'moved':
+        sig = 'moved|%s|%s|k%d|m%d' % (c ['mode'], c ['kind'], c ['k'], c ['mask'])
+    elif c.get ('fam') == 'decoy':
         sig = 'decoy|%s|k%d|m%d|p%d%d' % (c ['kind'], c ['k'], c ['mask'], c ['pos'], c ['dend'])
     elif c.get ('fam') == 'dloop':
         sig = 'dloop|%s|n%d' % (c ['kind'], c ['n'])
     elif c.get ('fam') == 'ring':
-        sig = 'ring|n%d|att%d' % (c ['n'], c ['att'])
+        sig = 'ring|n%d|att%d|pre%d' % (c ['n'], c ['att'], c.get ('pre', 0))
     elif 'fam' in c and c.get ('fam') == 'star':
         first = c ['perm'][0]
         sig = 'star|k%d|m%d|g%d|first%d' % (c ['k'], c ['mask'], c ['gnd'], (c ['mask'] >> first) & 1)
     else:
         kinds = ''.join (sorted (set (g ['k'] for g in spec ['geo'])))
         sig = 'graph|%s|%s|%s' % ('gnd' if spec ['media'] else 'free', sizes, kinds)
-    nontrivial = bool (sizes and (max (sizes) >= 3 or len (sizes) >= 2)) or c.get ('fam') in ('ring', 'dloop', 'decoy')
+    nontrivial = bool (sizes and (max (sizes) >= 3 or len (sizes) >= 2)) or c.get ('fam') in ('ring', 'dloop', 'decoy', 'moved')
     return dict ( status = 'violation' if viol else 'held', sig = sig, nontrivial = nontrivial
                 , monitors = mon, violations = viol [:6], info = dict (N = N, sizes = sizes))
 # end def check
